@@ -201,3 +201,6 @@ mod tests {
         }
     }
 }
+
+#[cfg(feature = "verif")]
+pub use rotations::{verif_to_matrix, verif_to_wpr};
